@@ -242,6 +242,8 @@ impl VerifCloudServer {
             service: MemService { objects, gate },
             cryptor: key.0.clone(),
             cleanup_probability: DEFAULT_CLEANUP_PROBABILITY,
+            #[cfg(test)]
+            add_version_intercept: None,
         })
     }
 
